@@ -2112,7 +2112,7 @@ class Context:
         self._next_dec_key = self.key_schedule.derive_secret(b"c ap traffic")
 
         self._psk_key_exchange_mode = psk_key_exchange_mode
-        if self._request_client_certificate:
+        if self._request_client_certificate and pre_shared_key is None:
             self._set_state(State.SERVER_EXPECT_CERTIFICATE)
         else:
             self._server_expect_finished(onertt_buf)
